@@ -44,98 +44,102 @@ func newSimWorld(sc *Scenario) *simWorld {
 	w := &simWorld{app: app, height: H0, time: 0}
 	w.begin()
 	// the scenario's in-memory keeper configuration
-	k := app.ServiceKeeper
-	for _, m := range sc.Rig.CallbackModules {
-		mod := m
-		_ = k.RegisterResponseCallback(m, func(ctx sdk.Context, id tmbytes.HexBytes, outs []string, err error) {
-			if rc, ok := k.GetRequestContext(ctx, id); ok && sc.Rig.ReentrantCreate && err != nil {
-				_, _ = k.CreateRequestContext(ctx, rc.ServiceName, rc.Providers, rc.Consumer, rc.Input, rc.ServiceFeeCap, rc.Timeout,
-					false, false, 0, 0, st.RUNNING, 1, mod)
-			}
-			if rc, ok := k.GetRequestContext(ctx, id); ok && sc.Rig.ReentrantSelfStart && err != nil {
-				_ = k.StartRequestContext(ctx, id, rc.Consumer)
-			}
-			if rc, ok := k.GetRequestContext(ctx, id); ok && sc.Rig.ReentrantSelfKill && err != nil {
-				_ = k.KillRequestContext(ctx, id, rc.Consumer)
-			}
-			if sc.Rig.Reentrant && err != nil {
-				var others [][]byte
-				var consumers []sdk.AccAddress
-				k.IterateRequestContexts(ctx, func(oid tmbytes.HexBytes, oc st.RequestContext) bool {
-					if oc.ModuleName == mod && !bytes.Equal(oid, id) {
-						others = append(others, append([]byte{}, oid...))
-						consumers = append(consumers, oc.Consumer)
-					}
-					return false
-				})
-				for i := range others {
-					_ = k.KillRequestContext(ctx, others[i], consumers[i])
+	var reg func(k servicekeeper.Keeper)
+	reg = func(k servicekeeper.Keeper) {
+		for _, m := range sc.Rig.CallbackModules {
+			mod := m
+			_ = k.RegisterResponseCallback(m, func(ctx sdk.Context, id tmbytes.HexBytes, outs []string, err error) {
+				if rc, ok := k.GetRequestContext(ctx, id); ok && sc.Rig.ReentrantCreate && err != nil {
+					_, _ = k.CreateRequestContext(ctx, rc.ServiceName, rc.Providers, rc.Consumer, rc.Input, rc.ServiceFeeCap, rc.Timeout,
+						false, false, 0, 0, st.RUNNING, 1, mod)
 				}
-			}
-		})
-		_ = k.RegisterStateCallback(m, func(ctx sdk.Context, id tmbytes.HexBytes, cause string) {
-			if sc.Rig.Reentrant {
-				if rc, ok := k.GetRequestContext(ctx, id); ok {
-					_ = k.KillRequestContext(ctx, id, rc.Consumer)
-				}
-			}
-			if sc.Rig.ReentrantStartSiblings {
-				var others [][]byte
-				var consumers []sdk.AccAddress
-				k.IterateRequestContexts(ctx, func(oid tmbytes.HexBytes, oc st.RequestContext) bool {
-					if oc.ModuleName == mod && !bytes.Equal(oid, id) {
-						others = append(others, append([]byte{}, oid...))
-						consumers = append(consumers, oc.Consumer)
-					}
-					return false
-				})
-				for i := range others {
-					_ = k.StartRequestContext(ctx, others[i], consumers[i])
-				}
-			}
-			if sc.Rig.ReentrantCapSiblings {
-				var others [][]byte
-				var consumers []sdk.AccAddress
-				k.IterateRequestContexts(ctx, func(oid tmbytes.HexBytes, oc st.RequestContext) bool {
-					if oc.ModuleName == mod && !bytes.Equal(oid, id) {
-						others = append(others, append([]byte{}, oid...))
-						consumers = append(consumers, oc.Consumer)
-					}
-					return false
-				})
-				for i := range others {
-					_ = k.UpdateRequestContext(ctx, others[i], nil, 0, sdk.NewCoins(sdk.NewInt64Coin(denom, 1)), 0, 0, 0, consumers[i])
-				}
-			}
-			if sc.Rig.ReentrantPauseSiblings {
-				var others [][]byte
-				var consumers []sdk.AccAddress
-				k.IterateRequestContexts(ctx, func(oid tmbytes.HexBytes, oc st.RequestContext) bool {
-					if oc.ModuleName == mod && !bytes.Equal(oid, id) {
-						others = append(others, append([]byte{}, oid...))
-						consumers = append(consumers, oc.Consumer)
-					}
-					return false
-				})
-				for i := range others {
-					_ = k.PauseRequestContext(ctx, others[i], consumers[i])
-				}
-			}
-			if sc.Rig.ReentrantRestart {
-				if rc, ok := k.GetRequestContext(ctx, id); ok {
+				if rc, ok := k.GetRequestContext(ctx, id); ok && sc.Rig.ReentrantSelfStart && err != nil {
 					_ = k.StartRequestContext(ctx, id, rc.Consumer)
 				}
-			}
-		})
+				if rc, ok := k.GetRequestContext(ctx, id); ok && sc.Rig.ReentrantSelfKill && err != nil {
+					_ = k.KillRequestContext(ctx, id, rc.Consumer)
+				}
+				if sc.Rig.Reentrant && err != nil {
+					var others [][]byte
+					var consumers []sdk.AccAddress
+					k.IterateRequestContexts(ctx, func(oid tmbytes.HexBytes, oc st.RequestContext) bool {
+						if oc.ModuleName == mod && !bytes.Equal(oid, id) {
+							others = append(others, append([]byte{}, oid...))
+							consumers = append(consumers, oc.Consumer)
+						}
+						return false
+					})
+					for i := range others {
+						_ = k.KillRequestContext(ctx, others[i], consumers[i])
+					}
+				}
+			})
+			_ = k.RegisterStateCallback(m, func(ctx sdk.Context, id tmbytes.HexBytes, cause string) {
+				if sc.Rig.Reentrant {
+					if rc, ok := k.GetRequestContext(ctx, id); ok {
+						_ = k.KillRequestContext(ctx, id, rc.Consumer)
+					}
+				}
+				if sc.Rig.ReentrantStartSiblings {
+					var others [][]byte
+					var consumers []sdk.AccAddress
+					k.IterateRequestContexts(ctx, func(oid tmbytes.HexBytes, oc st.RequestContext) bool {
+						if oc.ModuleName == mod && !bytes.Equal(oid, id) {
+							others = append(others, append([]byte{}, oid...))
+							consumers = append(consumers, oc.Consumer)
+						}
+						return false
+					})
+					for i := range others {
+						_ = k.StartRequestContext(ctx, others[i], consumers[i])
+					}
+				}
+				if sc.Rig.ReentrantCapSiblings {
+					var others [][]byte
+					var consumers []sdk.AccAddress
+					k.IterateRequestContexts(ctx, func(oid tmbytes.HexBytes, oc st.RequestContext) bool {
+						if oc.ModuleName == mod && !bytes.Equal(oid, id) {
+							others = append(others, append([]byte{}, oid...))
+							consumers = append(consumers, oc.Consumer)
+						}
+						return false
+					})
+					for i := range others {
+						_ = k.UpdateRequestContext(ctx, others[i], nil, 0, sdk.NewCoins(sdk.NewInt64Coin(denom, 1)), 0, 0, 0, consumers[i])
+					}
+				}
+				if sc.Rig.ReentrantPauseSiblings {
+					var others [][]byte
+					var consumers []sdk.AccAddress
+					k.IterateRequestContexts(ctx, func(oid tmbytes.HexBytes, oc st.RequestContext) bool {
+						if oc.ModuleName == mod && !bytes.Equal(oid, id) {
+							others = append(others, append([]byte{}, oid...))
+							consumers = append(consumers, oc.Consumer)
+						}
+						return false
+					})
+					for i := range others {
+						_ = k.PauseRequestContext(ctx, others[i], consumers[i])
+					}
+				}
+				if sc.Rig.ReentrantRestart {
+					if rc, ok := k.GetRequestContext(ctx, id); ok {
+						_ = k.StartRequestContext(ctx, id, rc.Consumer)
+					}
+				}
+			})
+		}
+		for _, m := range sc.Rig.ResponseOnlyModules {
+			_ = k.RegisterResponseCallback(m, func(ctx sdk.Context, id tmbytes.HexBytes, outs []string, err error) {})
+		}
+		for _, ms := range sc.Rig.ModuleServices {
+			spec := ms
+			_ = k.RegisterModuleService(spec.Module, &st.ModuleService{ServiceName: spec.Service, Provider: spec.Provider,
+				ReuquestService: func(ctx sdk.Context, input string) (string, string) { return spec.Result, spec.Output }})
+		}
 	}
-	for _, m := range sc.Rig.ResponseOnlyModules {
-		_ = k.RegisterResponseCallback(m, func(ctx sdk.Context, id tmbytes.HexBytes, outs []string, err error) {})
-	}
-	for _, ms := range sc.Rig.ModuleServices {
-		spec := ms
-		_ = k.RegisterModuleService(spec.Module, &st.ModuleService{ServiceName: spec.Service, Provider: spec.Provider,
-			ReuquestService: func(ctx sdk.Context, input string) (string, string) { return spec.Result, spec.Output }})
-	}
+	k := app.ServiceKeeper
+	reg(k)
 	w.handler = service.NewHandler(k)
 	w.mk = k
 	if sc.Rig.FX != nil {
@@ -146,6 +150,7 @@ func newSimWorld(sc *Scenario) *simWorld {
 		fk := servicekeeper.NewKeeper(app.AppCodec(), app.GetKey(st.StoreKey), app.AccountKeeper, app.BankKeeper, fxTokenKeeper{},
 			app.GetSubspace(st.ModuleName), authtypes.FeeCollectorName)
 		_ = fk.RegisterModuleService(st.RegisterModuleName, fxService(sc.Rig.FX))
+		reg(fk)
 		w.handler = service.NewHandler(fk)
 		w.mk = fk
 	}
